@@ -262,7 +262,12 @@ def module_version(mod):
     return None
 
 
-def rule_version_in_scope(ctx, rule_id="C14.version-in-scope", only_callees=None):
+# functions that may REPLACE an absent version by the detected one (and only then): everything else hands on exactly what it got
+DETECTOR_SITES = ("stix2.parsing::dict_to_stix2", "stix2.parsing::parse_observable", "stix2.versioning::new_version",
+                  "stix2.versioning::_get_stix_version")
+
+
+def rule_version_in_scope(ctx, rule_id="C14.version-in-scope", only_callees=None, only_modules=None):
     """Generalisation of the frozen chains above: at EVERY resolved call site where the caller knows the spec version in
     force and the callee takes one, the callee's version parameter is bound to it.  An omitted argument silently means
     "the library default" (2.1) or "detect"."""
@@ -275,6 +280,8 @@ def rule_version_in_scope(ctx, rule_id="C14.version-in-scope", only_callees=None
     n = 0
     for fi in sorted(prog.functions.values(), key=lambda f: f.id):
         if "/test/" in fi.module.relpath or fi.module.relpath.startswith("stix2/test"):
+            continue
+        if only_modules is not None and not fi.module.name.startswith(tuple(only_modules)):
             continue
         sv = scope_version(prog, fi)
         if sv is None:
@@ -312,12 +319,18 @@ def rule_version_in_scope(ctx, rule_id="C14.version-in-scope", only_callees=None
             else:
                 pr = flow_of(fi).prov(e)
                 ok = (sv[1] in pr.params) if sv[0] == "param" else (sv[1] in pr.selfattrs)
+                # handed on as received: a function that computes a version of its own (detects it once for a whole bundle,
+                # falls back to a default) and passes THAT down names a version the caller never named
+                if ok and sv[0] == "param" and fi.id not in DETECTOR_SITES and (pr.calls or (pr.params - {sv[1]})):
+                    ok = False
                 found = repr(pr)
             run.check(ok, rule_id, c, "the version handed to %s is not the version in force at this call site" % t.func.id,
                       file=fi.module.relpath, line=call.lineno, function=fi.qualname, expected="%s %s" % sv, found=found)
     # class bodies of the version packages: property tables are built there
     from ..loader import ClassInfo, FunctionInfo
     for mod in sorted(prog.modules.values(), key=lambda m: m.name):
+        if only_modules is not None:
+            continue
         mv = module_version(mod)
         if mv is None or mod.relpath.startswith("stix2/test"):
             continue
@@ -361,6 +374,8 @@ def rule_version_in_scope(ctx, rule_id="C14.version-in-scope", only_callees=None
                         run.check(isinstance(e, ast.Constant) and e.value == mv[1], rule_id, c,
                                   "a STIX %s class builds a property for another spec version" % mv[1], file=mod.relpath,
                                   line=call.lineno, function=cls.qualname, expected="%s='%s'" % (vp[0], mv[1]), found=norm(e))
-    if only_callees is None:
+    if only_callees is None and only_modules is None:
         run.extra["version_in_scope_sites"] = n
         run.floor(rule_id, 300)
+    elif only_modules is not None:
+        run.floor(rule_id, 20)
